@@ -66,9 +66,9 @@ func (sp *spec) split(t string) (fields []string, ok bool) {
 	if sp.inCSV || sp.fsOpen {
 		return nil, false
 	}
-	if sp.rsEmptySomewhere && strings.ContainsAny(t, "\n\r") && sp.fs != " " {
-		// the newline-is-also-a-separator rule of RS="" (applied by the implementation at the
-		// time of the lazy split, with the RS of that moment) is outside the property text
+	if sp.rs == "" && (strings.Contains(t, "\r") || (strings.Contains(t, "\n") && sp.fs != " ")) {
+		// the newline-is-also-a-separator rule of RS="" (RS as it is when the record is set)
+		// is outside the property text
 		return nil, false
 	}
 	switch {
@@ -127,9 +127,6 @@ func (sp *spec) setRecord(t string) {
 	sp.nfTainted = false
 	if !sp.keepTaint {
 		sp.taint = ""
-	}
-	if sp.fs == " " && !sp.inCSV && hasExoticSpace(t) {
-		sp.taint = "record-fs-space-nonblank-whitespace"
 	}
 }
 
@@ -445,8 +442,6 @@ func checkScript(s script, impl []string) []hx.Failure {
 			taint = prevTaint
 		}
 		switch {
-		case taint == "record-fs-space-nonblank-whitespace":
-			class, oracle = taint, "FS=\" \" separates on runs of blanks (space, tab, newline) only"
 		case taint == "setnf-nonintegral-or-string" || (sp.nfTainted && (nfOnly || strings.HasPrefix(lastMut, "modnf"))):
 			class, oracle = "setnf-nonintegral-or-string", "NF = number of fields"
 		}
@@ -569,10 +564,8 @@ func checkScript(s script, impl []string) []hx.Failure {
 		case "P":
 			sp.rs = o.T
 		case "I":
-			// the split is lazy in the implementation and uses the input mode of that moment;
-			// the property text does not fix this: expectation unknown until the next full view
+			// like FS, the input mode in force when the record was set splits it
 			sp.inCSV = o.T != "d"
-			sp.known = false
 		case "U":
 			sp.outMode = o.T
 		case "V":
@@ -620,7 +613,7 @@ func checkScript(s script, impl []string) []hx.Failure {
 		}
 		// reads change nothing (checked on $0 directly, whatever the expectation state)
 		switch o.K {
-		case "G", "N", "V", "F", "O", "P", "U", "I":
+		case "G", "N", "V", "F", "O", "P", "U", "I", "K":
 			if step > 0 && step-1 < len(impl) {
 				pp := strings.SplitN(impl[step-1], " r=", 2)
 				if len(pp) == 2 && pp[1] != gotLine {
